@@ -609,3 +609,50 @@ func TestVerif_C19_ListingRPCs(t *testing.T) {
 		}
 	})
 }
+
+// every short sequence of the requests that carry no argument at all (nothing to validate: only the state of the
+// service decides what they do), each on a fresh service; background tasks they trigger get time to run, a crash of
+// the process is caught by the driver
+func TestVerif_C19_ArgumentlessSequences(t *testing.T) {
+	acct := vacct.Get("C19")
+	methods := []string{"ContactRequestEnable", "ContactRequestDisable", "ContactRequestResetReference", "ShareContact", "ContactRequestReference", "ServiceGetConfiguration"}
+	maxLen := 2
+	if vacct.Thorough() {
+		maxLen = 3
+	}
+	shard, nshards := vacct.Shard()
+	idx := 0
+	for l := 1; l <= maxLen; l++ {
+		total := 1
+		for i := 0; i < l; i++ {
+			total *= len(methods)
+		}
+		for code := 0; code < total; code++ {
+			idx++
+			if idx%nshards != shard {
+				continue
+			}
+			var seq []string
+			for i, c := 0, code; i < l; i, c = i+1, c/len(methods) {
+				seq = append(seq, methods[c%len(methods)])
+			}
+			w := c19NewWorld(t)
+			for _, name := range seq {
+				r := w.call(name, w.newRequest(name))
+				if r.panicked {
+					acct.Violation(fmt.Sprintf("panic/%s/%s", name, r.site), "TestVerif_C19_ArgumentlessSequences", map[string]any{"sequence": seq, "panic": r.panicMsg, "site": r.site})
+					t.Fatalf("C19: %s panicked in sequence %v at %s: %s", name, seq, r.site, r.panicMsg)
+				}
+				time.Sleep(40 * time.Millisecond) // handlers of the events the call appended run in background tasks
+			}
+			time.Sleep(120 * time.Millisecond)
+			// the service still answers
+			if r := w.call("ServiceGetConfiguration", &protocoltypes.ServiceGetConfiguration_Request{}); r.panicked || r.hung {
+				acct.Violation("service-dead-after-sequence", "TestVerif_C19_ArgumentlessSequences", map[string]any{"sequence": seq})
+				t.Fatalf("C19: the service does not answer after %v", seq)
+			}
+			w.cleanup()
+			acct.Case(l >= 2, "argless|"+strings.Join(seq, ","), func() any { return map[string]any{"kind": "argumentless-sequence", "sequence": seq} }, "argumentless-sequences")
+		}
+	}
+}
